@@ -356,7 +356,15 @@ func (fr *Frame) contractCall(fn *ssa.Function, fc *FuncContract, args []Val, bi
 		vc.assume(st, post.clause(c))
 	}
 	for _, c := range fc.Trusts {
-		vc.assume(st, post.clause(c))
+		if strings.HasPrefix(c.Name, "inv") {
+			// same slicing tag as a proved invariant clause, so that moving a clause between `ensures` and
+			// `trusts` does not change the call-site queries
+			untag := vc.withTag('V')
+			vc.assume(st, post.clause(c))
+			untag()
+		} else {
+			vc.assume(st, post.clause(c))
+		}
 		vc.note("trusted (unproved) postcondition assumed at call sites: " + shortFuncName(fn) + "#" + c.Name + ": " + c.Src)
 	}
 	if fc.Extern {
